@@ -280,7 +280,10 @@ func RunNumeric(file string, n int, seed int64) (*NumResult, error) {
 		app.AccountKeeper.SetAccount(ctx, app.AccountKeeper.NewAccountWithAddress(ctx, owner))
 		coins := sdk.NewCoins(sdk.NewCoin("uc4e", sdk.NewIntFromBigInt(amt)))
 		s.fund(ctx, owner, "", coins)
-		app.CfevestingKeeper.SetVestingType(ctx, vtypes.VestingType{Name: "numvt", LockupPeriod: time.Hour, VestingPeriod: time.Hour, Free: sdk.NewDecFromBigIntWithPrec(free, 18)})
+		// periods from an hour to two centuries (each legal on its own; their sum exceeds what one time.Duration holds)
+		periods := []time.Duration{time.Hour, 365 * 24 * time.Hour, 36500 * 24 * time.Hour, 73000 * 24 * time.Hour, 100000 * 24 * time.Hour}
+		lockup, vperiod := periods[rng.Intn(len(periods))], periods[rng.Intn(len(periods))]
+		app.CfevestingKeeper.SetVestingType(ctx, vtypes.VestingType{Name: "numvt", LockupPeriod: lockup, VestingPeriod: vperiod, Free: sdk.NewDecFromBigIntWithPrec(free, 18)})
 		if o, d, _, _ := e.Deliver(ctx, &vtypes.MsgCreateVestingPool{Owner: owner.String(), Name: "p", Amount: sdk.NewIntFromBigInt(amt), Duration: time.Hour, VestingType: "numvt"}); o != "ok" {
 			res.Findings = append(res.Findings, walk.Finding{Prop: "C08", Kind: "outcome", Sig: "num.send.createpool", Msg: "pool creation at real magnitude failed: " + d})
 			continue
@@ -294,6 +297,11 @@ func RunNumeric(file string, n int, seed int64) (*NumResult, error) {
 			continue
 		}
 		res.Sends = append(res.Sends, SendStep{Amount: amt.String(), Free: free.String(), OV: acc.OriginalVesting.AmountOf("uc4e").String()})
+		// C08: a restarted send vests between block time + lockup and block time + lockup + vesting period
+		if wantS, wantE := ctx.BlockTime().Add(lockup).Unix(), ctx.BlockTime().Add(lockup).Add(vperiod).Unix(); acc.StartTime != wantS || acc.EndTime != wantE {
+			res.Findings = append(res.Findings, walk.Finding{Prop: "C08", Kind: "predicate", Sig: "num.send.schedule", Msg: fmt.Sprintf("restarted send with lockup %s and vesting period %s: schedule differs from block time + lockup .. + vesting period", lockup, vperiod),
+				Expected: fmt.Sprintf("%d..%d", wantS, wantE), Observed: fmt.Sprintf("%d..%d", acc.StartTime, acc.EndTime)})
+		}
 		if b := app.BankKeeper.GetBalance(ctx, rcpt, "uc4e").Amount.BigInt(); b.Cmp(amt) != 0 {
 			res.Findings = append(res.Findings, walk.Finding{Prop: "C08", Kind: "predicate", Sig: "num.send.amount", Msg: "recipient did not receive exactly the requested amount", Expected: amt.String(), Observed: b.String()})
 		}
